@@ -195,8 +195,9 @@ def execute_filter_pair(case):
     return obs, result, [], (ltable, rtable)
 
 
-def execute(case):
-    """Run the case; returns (obs, result_dataframe_or_None, hook_events)."""
+def execute(case, tokenizer=None):
+    """Run the case; returns (obs, result_dataframe_or_None, hook_events).  A tokenizer object may be handed in so
+    that several calls share it."""
     import joblib
     ssj = lib.load()
     vh = lib.hooks_module()
@@ -204,7 +205,9 @@ def execute(case):
     rtable = make_df(case['R'], case.get('rattr', 's'))
     if case.get('same_object'):
         rtable = ltable                              # self-join on one DataFrame object
-    tokenizer = make_tokenizer(case['tok'])
+    shared = tokenizer is not None
+    if tokenizer is None:
+        tokenizer = make_tokenizer(case['tok'])
     if case.get('default_tok'):
         import inspect
         tokenizer = inspect.signature(ssj.edit_distance_join).parameters['tokenizer'].default
@@ -233,7 +236,7 @@ def execute(case):
     if raised == '' and not isinstance(result, pd.DataFrame):
         obs['raised'] = 'NotADataFrame'
         result = None
-    if obs['fa'] != fb:                              # do not let one case disturb the next
+    if obs['fa'] != fb and not shared:               # do not let one case disturb the next
         tokenizer.set_return_set(bool(fb))
     return obs, result, events, (ltable, rtable)
 
